@@ -40,6 +40,7 @@ type Ctx struct {
 	Exhaustive bool
 	Rule    string
 	Scope   string // numeral scope of the cases file (default nat_scope)
+	WideFactor int // multiplier of the random budget in the widened search (default 10)
 	HasKF   bool // the Eval module defines known_classes (known-finding regions re-observed)
 }
 
@@ -52,7 +53,11 @@ func (c *Ctx) Pick(q, t int) int {
 		n = t
 	}
 	if c.Wide {
-		n *= 10
+		f := c.WideFactor
+		if f == 0 {
+			f = 10
+		}
+		n *= f
 	}
 	return n
 }
